@@ -539,6 +539,8 @@ class Interp:
         if isinstance(v, SymObj):
             if name in v.attrs:
                 return v.attrs[name]
+            if name == "__class__" and v.cls and v.module:
+                return ClassRef(v.module, v.cls)
             if v.cls and v.module and source.find_method(v.module, v.cls, name) is not None:
                 fi = source.find_method(v.module, v.cls, name)
                 decos = [ast.unparse(d) for d in fi.node.decorator_list]
@@ -572,6 +574,8 @@ class Interp:
             if dotted in npmodel.CONSTANTS:
                 return npmodel.CONSTANTS[dotted]
             return External(dotted)
+        if isinstance(v, ClassRef) and name in ("__name__", "__qualname__"):
+            return v.name
         if isinstance(v, ClassRef):
             mi = source.load_module(v.module)
             cdef = mi.classes[v.name]
